@@ -27,6 +27,9 @@
 #ifdef USE_STARPU
 #include "algorithms/smstarpu/tbfsmstarpualgorithm.hpp"      // <starpu.h> resolves to harness/mock_starpu/starpu.h
 #endif
+#ifdef USE_SPECX
+#include "algorithms/smspecx/tbfsmspecxalgorithm.hpp"        // <Legacy/SpRuntime.hpp> resolves to harness/mock_specx/
+#endif
 
 #include "kernels/counterkernels/tbfinteractioncounter.hpp"
 #if PERIODIC
@@ -374,6 +377,19 @@ int main(){
             algo->execute(*cs.tree, int(kv(ts, "flags", 63)));
             long nt = 0; mock_gomp_history(&nt);
             std::cout << "T " << nt << "\n";
+            flushLog();
+        }
+#endif
+#ifdef USE_SPECX
+        else if(op == "exec" && ts.size() > 1 && ts[1] == "specx"){
+            mock_specx_configure(int(kv(ts, "sched", 0)), (unsigned long)kv(ts, "seed", 1), int(kv(ts, "workers", 1)));
+            const long before = mock_specx_total_run();
+            {
+                std::unique_ptr<TbfSmSpecxAlgorithm<RealType, Kernel, SpaceIndex>> algo(
+                    new TbfSmSpecxAlgorithm<RealType, Kernel, SpaceIndex>(*cs.config, kv(ts, "upper", 2)));
+                algo->execute(*cs.tree, int(kv(ts, "flags", 63)));
+            }
+            std::cout << "T " << (mock_specx_total_run() - before) << "\n";
             flushLog();
         }
 #endif
